@@ -14,6 +14,25 @@ import time
 
 VERIF = os.path.dirname(os.path.dirname(os.path.abspath(__file__)))
 TARGET = "/tmp/wt/target-confirm"
+_slot_lock = None
+
+
+def take_slot():
+    """Three shared cargo target directories; one confirmation at a time per directory."""
+    global TARGET, _slot_lock
+    import fcntl
+    while True:
+        for i in range(3):
+            f = open("/tmp/wt/target-confirm-%d.lock" % i, "w")
+            try:
+                fcntl.flock(f, fcntl.LOCK_EX | fcntl.LOCK_NB)
+            except OSError:
+                f.close()
+                continue
+            _slot_lock = f
+            TARGET = "/tmp/wt/target-confirm-%d" % i
+            return
+        time.sleep(5)
 
 
 def sh(cmd, cwd, timeout=3600):
@@ -27,6 +46,9 @@ def main():
     pid = sys.argv[1]
     ms = sys.argv[2:] or ["m1", "m2"]
     W = "/tmp/wt/%s" % pid
+    if any(m in ("m3", "m4", "m5") for m in ms):
+        W = "/tmp/wt/r2-%s" % pid  # round 2: scratch clones
+    take_slot()
     for m in ms:
         out = os.path.join(W, "_out", m)
         if not os.path.exists(os.path.join(out, "patch.diff")):
@@ -39,7 +61,7 @@ def main():
         demo_cmd = demo_cmd.replace("/tmp/wt/%s/target" % pid, TARGET)
         import re
         demo_cmd = re.sub(r"git apply [^&;]*(&&|;)\s*", "", demo_cmd)
-        demo_cmd = re.sub(r"cd /tmp/wt/%s\s*(&&|;)\s*" % pid, "", demo_cmd)
+        demo_cmd = re.sub(r"cd /tmp/wt/(r2-)?%s\s*(&&|;)\s*" % pid, "", demo_cmd)
         mm = re.search(r"(cargo test[^&;|(#`]*)", demo_cmd)
         if mm:
             demo_cmd = mm.group(1).strip()
